@@ -62,6 +62,7 @@ void env_enable(bool on);                      /* count + trace + plan on role-t
 extern int env_alloc_on, env_alloc_count, env_alloc_fail_at;   /* allocator seam */
 int env_calls(void);                           /* number of choice points seen */
 void env_dump_trace(FILE *o);                  /* "T k op role req res errno" lines */
+extern int env_bad_closes;                     /* closes on descriptors that are not open (EBADF) by the code under test */
 extern int env_plan_mismatch;                  /* plan referenced a call that does not accept it */
 ssize_t real_read(int fd, void *b, size_t n);
 ssize_t real_write(int fd, const void *b, size_t n);
